@@ -39,6 +39,9 @@ CHECKS = {
  "C16": ("exploration", "online inflight counter at the scripted subscriber (never above the window, retransmissions included), two-queue marker drain check, token conservation at quiescence through the VerifTokens hook",
          "1200 (quick) / 20000 (thorough) streams: windows 1-10, 1..20 x window messages, QoS mixes incl. pure QoS 0, batched / reversed / half-way QoS 2 acknowledgement policies, drop+resume at a PRNG point",
          "the subscriber only acknowledges what it received and releases withheld acknowledgements when its window is full; hook commit adds broker/verif_hooks.go behind the verif tag", "2-C16"),
+ "C12": ("fault_enumeration", "count of Backend.Publish calls with the will's content on behalf of the dying client after its Closed() fired, cross-checked with online, offline-persistent and late (retained) observers behind marker fences",
+         "full matrix of 19 termination causes x 5 protocol states (applicable pairs) x will QoS 0-2 x retain = 390 scenarios, 3 (quick) / 40 (thorough) repetitions for schedule diversity",
+         "DISCONNECT racing with another cause is judged by what the broker logged as received; a processor blocked on a token ends at the token timeout", "2-C12"),
 }
 NOT_APPLICABLE = {}
 def main():
